@@ -77,7 +77,10 @@ def run_one(v):
     repo = Repo(overrides={rel: src})
     base = Repo()
     problems = []
+    only = [x for x in os.environ.get("RULES", "").split(",") if x]
     for r, fn in sorted(registry.RULES.items()):
+        if only and r not in only:
+            continue
         try:
             b = {(x.rule, x.function, x.construct.replace("_rn", "")) for x in fn(base).violations}
         except AnalysisError:
